@@ -498,3 +498,46 @@ Qed.
 Lemma change_case_unbalanced_example_lemma :
   change_case (s2l "{\") 0 = Ok (s2l "{\}").
 Proof. vm_compute. reflexivity. Qed.
+
+(* ------------------------------------------------------------------ unbalanced input: lossless up to one closing brace *)
+Lemma scan_go_concat : forall s level sp ts,
+  scan_go s level sp = Ok ts ->
+  concat (map fst ts) =
+  (match sp with Some (_, acc) => rev acc | None => [] end) ++ s ++
+  (if ends_in_special_go s level (option_map fst sp) then [c_rbrace] else []).
+Proof.
+  induction s as [|c t IH]; intros level sp ts H.
+  - destruct sp as [[d acc]|]; cbn [scan_go] in H; inv_ok; cbn; rewrite ?app_nil_r; reflexivity.
+  - destruct sp as [[d acc]|]; cbn [scan_go] in H; cbn [option_map fst ends_in_special_go];
+    unfold is_lbrace, is_rbrace in H.
+    + destruct (N.eqb c c_lbrace) eqn:El.
+      * destruct (Nat.ltb max_level (2 + d)); [discriminate|].
+        apply IH in H. rewrite H. cbn [option_map fst rev]. rewrite <- !app_assoc. reflexivity.
+      * destruct (N.eqb c c_rbrace) eqn:Er.
+        -- destruct d as [|d'].
+           ++ inv_ok. apply IH in Hr. cbn [map fst concat]. rewrite Hr. cbn [option_map app].
+              apply N.eqb_eq in Er. subst c. reflexivity.
+           ++ apply IH in H. rewrite H. cbn [option_map fst rev]. rewrite <- !app_assoc. reflexivity.
+        -- apply IH in H. rewrite H. cbn [option_map fst rev]. rewrite <- !app_assoc. reflexivity.
+    + destruct (N.eqb c c_lbrace) eqn:El.
+      * apply N.eqb_eq in El. subst c.
+        match type of H with context [if ?b then _ else _] => destruct b eqn:Esp end.
+        -- inv_ok. apply IH in Hr. cbn [map fst concat]. rewrite Hr. reflexivity.
+        -- destruct (Nat.ltb max_level (S level)); [discriminate|]. inv_ok.
+           apply IH in Hr. cbn [map fst concat]. rewrite Hr. reflexivity.
+      * destruct (N.eqb c c_rbrace) eqn:Er; cbn [andb] in H.
+        -- apply N.eqb_eq in Er. subst c.
+           destruct level as [|l']; cbn [Nat.ltb Nat.leb pred] in H |- *; inv_ok;
+             apply IH in Hr; cbn [map fst concat]; rewrite Hr; reflexivity.
+        -- inv_ok. apply IH in Hr. cbn [map fst concat]. rewrite Hr. reflexivity.
+Qed.
+
+Lemma scan_lossless_all_lemma s ts : scan s = Ok ts ->
+  concat (map fst ts) = s ++ (if ends_in_special s then [c_rbrace] else []).
+Proof. intros H. apply scan_go_concat in H. exact H. Qed.
+
+Lemma change_case_upto_case_all_lemma s mode out : change_case s mode = Ok out ->
+  lower out = lower (s ++ (if ends_in_special s then [c_rbrace] else [])).
+Proof.
+  unfold change_case. intros H. inv_ok. rewrite cc_go_lower, (scan_lossless_all_lemma s r Hr). reflexivity.
+Qed.
